@@ -1950,4 +1950,126 @@ theorem setFuncUser_refines {s : St} (h : Inv s) (rid fid : Nat) :
     Inv (setFunc s rid (.user fid)) ∧ abs (setFunc s rid (.user fid)) = asetFunc (abs s) rid (fun _ => .user fid) :=
   setFunc_refines h rid (.user fid) (fun _ => .user fid) (fun _ _ => ⟨trivial, rfl⟩)
 
+/-! ### new, CmdPeriod -/
+
+theorem lookupResp_none_iff (s : St) (rid : Nat) : lookupResp s rid = none ↔ rid ∉ s.resps.map (·.1) := by
+  unfold lookupResp
+  induction s.resps with
+  | nil => simp
+  | cons p rest ih =>
+    by_cases h : (p.1 == rid) = true
+    · have : p.1 = rid := by simpa using h
+      simp [List.find?_cons, h, this]
+    · have hne : ¬ p.1 = rid := by simpa using h
+      have hne' : ¬ rid = p.1 := fun e => hne e.symm
+      simp only [List.find?_cons, h, List.map_cons, List.mem_cons, hne', false_or]
+      exact ih
+
+def appendResp (s : St) (rid : Nat) (r : Resp) : St := { s with resps := s.resps ++ [(rid, r)] }
+
+theorem lookupResp_appendResp (s : St) (rid : Nat) (r : Resp) (hn : lookupResp s rid = none) (rid' : Nat) :
+    lookupResp (appendResp s rid r) rid' = if rid' = rid then some r else lookupResp s rid' := by
+  unfold lookupResp appendResp
+  simp only [List.find?_append]
+  by_cases he : rid' = rid
+  · subst he
+    have : s.resps.find? (·.1 == rid') = none := by
+      have := hn; unfold lookupResp at this
+      cases hf : s.resps.find? (·.1 == rid') with
+      | none => rfl
+      | some x => rw [hf] at this; cases this
+    simp [this]
+  · have hne : (rid == rid') = false := by simpa using fun e => he e.symm
+    cases hf : s.resps.find? (·.1 == rid') with
+    | none => simp [he, hne]
+    | some x => simp [he]
+
+theorem inv_appendResp {s : St} (h : Inv s) {rid : Nat} (hn : lookupResp s rid = none) (r : Resp)
+    (hen : r.enabled = false) (hown : FnOwned rid r.func) : Inv (appendResp s rid r) := by
+  have hL := lookupResp_appendResp s rid r hn
+  refine ⟨?_, ?_, ?_⟩
+  · show ((s.resps ++ [(rid, r)]).map (·.1)).Nodup
+    simp only [List.map_append, List.map_cons, List.map_nil]
+    refine List.nodup_append.mpr ⟨h.rids, by simp, ?_⟩
+    intro a ha b hb
+    simp at hb; subst hb
+    exact fun e => (lookupResp_none_iff s b).mp hn (e ▸ ha)
+  · intro rid' r' h1
+    rw [hL] at h1
+    by_cases he : rid' = rid
+    · subst he; simp only [if_true] at h1; cases h1; exact hown
+    · simp only [he, if_false] at h1; exact h.own _ _ h1
+  · intro k
+    refine DInv_frame (s := s) (by cases k <;> rfl) ?_ ?_ (Nat.le_refl _) (h.d k)
+    · intro p hp
+      rw [hL]
+      have : p.1 ≠ rid := by
+        intro e1
+        obtain ⟨r0, _, h1, _, _, _⟩ := (h.d k).wr p hp
+        rw [e1, hn] at h1; cases h1
+      simp [this]
+    · intro rid' r0 h1 h2 h3
+      rw [hL] at h1
+      by_cases he : rid' = rid
+      · subst he; simp only [if_true] at h1; cases h1; rw [hen] at h2; cases h2
+      · simp only [he, if_false] at h1; exact (h.d k).en rid' r0 h1 h2 h3
+
+theorem new_refines {s : St} (h : Inv s) (rid : Nat) (kind : DispKind) (path : Str) (src : Option (Nat × Option Nat))
+    (port : Option Nat) (tmpl : Option (List TItem)) (fid : Nat) :
+    Inv (newResp s rid kind path src port tmpl fid) ∧
+      abs (newResp s rid kind path src port tmpl fid) = anew (abs s) rid kind path src port tmpl fid := by
+  unfold newResp anew
+  rw [alookup_abs]
+  cases hr : lookupResp s rid with
+  | some r => simp only [Option.isSome_some, if_true, Option.map_some]; exact ⟨h, trivial⟩
+  | none =>
+    simp only [Option.isSome_none, Bool.false_eq_true, if_false, Option.map_none]
+    have hi := inv_appendResp h hr ⟨normPath path, src, port, tmpl, .user fid, false, false, kind⟩ rfl trivial
+    have := enable_refines hi rid
+    refine ⟨this.1, ?_⟩
+    show abs (enable (appendResp s rid _) rid) = _
+    rw [this.2]
+    congr 1
+    apply ASt.ext'
+    · show (s.resps ++ [_]).map _ = _
+      simp [abs, absResp, absFn]
+    · intro k; cases k <;> rfl
+    · intro k; cases k <;> rfl
+    · rfl
+
+theorem withCmd_refines {s : St} (h : Inv s) (c : List ActKey) :
+    Inv ({ s with cmdPeriod := c } : St) ∧ abs ({ s with cmdPeriod := c } : St) = { abs s with cmd := c } := by
+  refine ⟨⟨h.rids, fun rid r hr => h.own rid r hr, ?_⟩, rfl⟩
+  intro k
+  exact DInv_frame (s := s) (by cases k <;> rfl) (fun p _ => rfl)
+    (fun rid r' h1 h2 h3 => (h.d k).en rid r' h1 h2 h3) (Nat.le_refl _) (h.d k)
+
+theorem cmdPeriod_go_refines : ∀ (ks : List ActKey) (s : St), Inv s →
+    Inv (cmdPeriodRun.go s ks).1 ∧ abs (cmdPeriodRun.go s ks).1 = (acmdPeriod.go (abs s) ks).1 ∧
+      (cmdPeriodRun.go s ks).2 = (acmdPeriod.go (abs s) ks).2
+  | [], s, h => ⟨h, rfl, rfl⟩
+  | k :: ks, s, h => by
+    unfold cmdPeriodRun.go acmdPeriod.go
+    have hc : (abs s).cmd = s.cmdPeriod := rfl
+    rw [hc]
+    split
+    · cases k with
+      | resp rid =>
+        simp only
+        have hd := disable_refines h rid
+        have ih := cmdPeriod_go_refines ks (free s rid) hd.1
+        have e : abs (free s rid) = adisable (abs s) rid := hd.2
+        rw [e] at ih
+        exact ih
+      | user aid =>
+        simp only
+        have ih := cmdPeriod_go_refines ks s h
+        exact ⟨ih.1, ih.2.1, by rw [ih.2.2]⟩
+    · exact cmdPeriod_go_refines ks s h
+
+theorem cmdPeriod_refines {s : St} (h : Inv s) :
+    Inv (cmdPeriodRun s).1 ∧ abs (cmdPeriodRun s).1 = (acmdPeriod (abs s)).1 ∧
+      (cmdPeriodRun s).2 = (acmdPeriod (abs s)).2 :=
+  cmdPeriod_go_refines s.cmdPeriod s h
+
 end Sc3Verif.C18
